@@ -8,7 +8,7 @@ TECHNIQUE = 'runtime monitoring under a deterministic cooperative scheduler with
 RULE = ('2-5 timed sources (some sharing a signal name) on a started ActiveObject; at a virtual instant that coincides with a posting instant of '
         'a source in half of the runs (so canceller and timer thread are runnable together) cancel_event(id) or cancel_events(event) is called '
         'from outside or from inside a handler, with the id / signal-name object either identical to what miros returned or EQUAL BUT NOT '
-        'IDENTICAL (rebuilt by join / encode-decode / JSON round trip, as if received over a network); in 40% of the runs a further thread arms an unrelated timed source at the very instant of the cancel; in a quarter of the outside runs a SECOND thread makes the same cancelling call at the same instant (the first timer thread that posts from then on is held in the middle of its post by an injected delay): after whichever call returns first the target must be silent; in a fifth of the runs a NAMESAKE of the target is armed by another thread at the instant of cancel_events, that thread being held for a moment at a random line of the arming call (injected delay) so that the cancel runs to completion in the middle of it: a source armed before the cancel call began must be silent once it returned, and any other must be silent for good once the NEXT cancel_events for its name returned; in a fifth of the runs the object (a subclass with a small QUEUE_SIZE) can track exactly one more source than it already has and TWO threads arm one each just before the cancel of the oldest source: one must be refused and every accepted source must stay cancellable. Checked from the deque operation log: '
+        'IDENTICAL (rebuilt by join / encode-decode / JSON round trip, as if received over a network); in 40% of the runs a further thread arms an unrelated timed source at the very instant of the cancel (in a third of these, TWO threads arm one source each, same signal name, at once: all ids handed out must be different); in a quarter of the outside runs a SECOND thread makes the same cancelling call at the same instant (the first timer thread that posts from then on is held in the middle of its post by an injected delay): after whichever call returns first the target must be silent; in a fifth of the runs a NAMESAKE of the target is armed by another thread at the instant of cancel_events, that thread being held for a moment at a random line of the arming call (injected delay) so that the cancel runs to completion in the middle of it: a source armed before the cancel call began must be silent once it returned, and any other must be silent for good once the NEXT cancel_events for its name returned; in a fifth of the runs the object (a subclass with a small QUEUE_SIZE) can track exactly one more source than it already has and TWO threads arm one each just before the cancel of the oldest source: one must be refused and every accepted source must stay cancellable. Checked from the deque operation log: '
         'no append of a cancelled source after the step at which the cancel call returned; exactly the targeted sources stop; every other '
         'source has its ideal number of postings at the horizon. distinct_nontrivial = distinct (cancel mode, inside/outside, identical or '
         'rebuilt, coincident instant, context-switch sequence) tuples')
@@ -16,7 +16,7 @@ CASES = {'quick': 1500, 'thorough': 80000}
 BUDGET = {'quick': 150, 'thorough': 300}
 REQUIRE = {'runs': 600, 'cancel_by_id': 200, 'cancel_by_name': 200, 'cancel_from_handler': 150, 'rebuilt_argument': 200, 'cancel_coincides_with_posting': 200,
            'timer_and_canceller_runnable_together': 50, 'source_armed_during_cancel': 200,
-           'runs_under_capacity_pressure': 100, 'overlapping_cancellations': 100, 'capacity_pressure_one_of_two_refused': 80, 'namesake_armed_during_cancel': 80, 'namesake_armed_while_the_cancel_ran': 30}
+           'runs_under_capacity_pressure': 100, 'overlapping_cancellations': 100, 'capacity_pressure_one_of_two_refused': 80, 'namesake_armed_during_cancel': 80, 'two_threads_arm_namesake_sources_at_once': 60, 'namesake_armed_while_the_cancel_ran': 30}
 ASSUME = ['instantaneous-computation time model (clock advances only at quiescence)']
 ANNOUNCE_CASES = True
 
@@ -83,7 +83,10 @@ def run_case(ctx, n):
       # in part of the runs another thread arms an unrelated timed source at the very instant of the cancel
       armers = []
       if pressure or rng.random() < 0.4:
-        for _ in range(2 if pressure else 1):
+        twin_armers = (not pressure) and rng.random() < 0.35
+        if twin_armers:
+          ctx.count('two_threads_arm_namesake_sources_at_once')
+        for _ in range(2 if (pressure or twin_armers) else 1):
           ysrc = {'i': len(sources), 'sig': 'TICK_Y', 'kind': rng.choice(['fifo', 'lifo']), 'period': rng.choice([0.01, 0.05, 0.1]),
                   'times': rng.choice([0, 3, 5]), 'deferred': rng.choice([True, False, None]), 'start_delay': 0.0}
           sources.append(ysrc)
@@ -172,6 +175,15 @@ def run_case(ctx, n):
         ctx.count('capacity_pressure_one_of_two_refused')
       else:
         ctx.count('other_property_disagreements')      # how many are refused is C31's business
+    # an id names ONE source: whatever was armed, by whichever threads, no two sources of the object may share an id
+    ids = [(i, run.ids[i]) for i in sorted(run.ids) if run.ids[i] is not None]
+    seen = {}
+    for i, x in ids:
+      if str(x) in seen:
+        ctx.violation('C11/two-sources-share-an-id', 'sources %d and %d of one active object were given the same id %r: cancel_event(id) can no longer stop exactly one of them' % (seen[str(x)], i, str(x)), wit)
+        return
+      seen[str(x)] = i
+    ctx.count('source_ids_compared', len(ids))
     if 'ret' not in cancel_rec:
       ctx.violation('C11/cancel-never-ran', 'the cancelling call did not complete (handler not run?)', wit)
       return
